@@ -308,7 +308,8 @@ def correspondence(ctx):
     same_kind = [(i, j) for i in range(n) for j in range(n) if kind(VALUES[i]) == kind(VALUES[j])
                  and kind(VALUES[i]) in ('dict', 'list', 'tuple', 'str', 'num', 'set', 'frozenset')]
     for i, j in same_kind:
-        for kw in ({'exact_strings': True}, {'delta': 0.1}, {'delta': 0.00001}, {'delta': 0.5}):
+        # (delta=None is documented as "the default tolerance")
+        for kw in ({'exact_strings': True}, {'delta': 0.1}, {'delta': 0.00001}, {'delta': 0.5}, {'delta': None}):
             if ctx.tier == 'quick' and rng.random() < 0.5:
                 continue
             cases.append({'assertion': 'assert_equal', 'left': i, 'right': j, 'wl': False, 'wr': False, 'kwargs': kw})
@@ -423,7 +424,7 @@ def correspondence(ctx):
             continue
         if case.get('kwargs'):
             kw = case['kwargs']
-            want = spec_equal(a, b, exact=kw.get('exact_strings', False), delta=kw.get('delta', 0.001))
+            want = spec_equal(a, b, exact=kw.get('exact_strings', False), delta=0.001 if kw.get('delta') is None else kw['delta'])
             if want is not None and fired == want:
                 ctx.violation('equal-options', {'case': case, 'observed': r, 'why': 'assert_equal(%r, %r, %s) fired=%s' % (a, b, kw, fired)})
             continue
